@@ -107,7 +107,10 @@ def run_c02(repo, tier, seed, only=None):
     rng = random.Random(1000 + seed)
     R = Runner('C02')
     corpus = [['{a: 1}', '{a: {b: 2}}'], ['{a: [1, 2, 3]}', '{a: {0: 9}}'], ['{a: [1, 2, 3]}', '{a: {5: 9}}'], ['{a: {}}', '{a: {}}', '{b: []}'],
-              ['{a: [1, [2, 3]]}', '{a: {1: {0: 7}}}'], ['{a: [1, 2]}', '{a: {-1: 5}}'], ['{_u: 1, a: {_u: 2}}', '{a: {_u: 3}}']]
+              ['{a: [1, [2, 3]]}', '{a: {1: {0: 7}}}'], ['{a: [1, 2]}', '{a: {-1: 5}}'], ['{_u: 1, a: {_u: 2}}', '{a: {_u: 3}}'],
+              # a mapping with SEVERAL keys merged onto a list: an index that does not exist is an error wherever it stands among valid ones
+              ['{a: [1, 2]}', "{a: {5: 'x', 0: 'y'}}"], ['{a: [1, 2]}', "{a: {-7: 'x', 1: 'y'}}"], ['{a: [1, 2]}', "{a: {0: 'y', 5: 'x'}}"], ['{a: [1, 2]}', '{a: {2: 3, 1: 9}}', '{a: {2: 4}}'],
+              ['{p: {q: 0}}', '{p: {q: [[1], {k: 1}]}}', "{p: {q: {0: [2], 2: 'x', 1: {k: 2}}}}"], ['{a: [1, 2, 3]}', '{a: {-4: 9}}'], ['{a: [1, 2, 3]}', '{a: {-3: 9, 2: 8}}']]
     cases = [('text', c) for c in corpus] if only is None else [('text', only)]
     if only is None:
         for _ in range(n_cases(tier, 250, 4000)):
@@ -129,7 +132,12 @@ def run_c02(repo, tier, seed, only=None):
             if rng.random() < 0.5:
                 new = [val(2) for _ in range(rng.randint(0, 3))]
             else:
-                new = {i: val(2) for i in rng.sample(range(len(old)), rng.randint(1, len(old)))}
+                idx = rng.sample(range(len(old)), rng.randint(1, len(old)))
+                if rng.random() < 0.35:
+                    idx.insert(rng.randint(0, len(idx)), rng.choice([len(old), len(old) + 3, -len(old) - 1, -len(old) - 4]))       # an index that does not exist, at any position among the keys
+                if rng.random() < 0.3:
+                    idx = [i - len(old) if i >= 0 and rng.random() < 0.5 else i for i in idx]                                       # negative spellings of valid indices
+                new = {i: val(2) for i in dict.fromkeys(idx)}
             docs = [{'a': old}, {'a': new}]
             if rng.random() < 0.3:
                 docs.insert(0, {'a': 5})
@@ -417,6 +425,15 @@ def run_c15(repo, tier, seed, only=None):
     R.cases += 1
     if b1 != b2:
         R.fail('bounded:C15.known:nested-list-added-to-a-forced-list-loses-its-items', f'docs={kf2}: built {b1!r}, with the last document repeated {b2!r}', {'family': 'c15', 'docs': kf2})
+    # int-keyed mappings merged onto a list, with keys past the end (an error in every variant: repeated, permuted, marked)
+    for kf3 in (['{a: [1, 2]}', "{a: {0: 'w', 5: 'x'}}"], ['{a: [1, 2]}', "{a: {3: 'x', 2: 'y'}}"], ['{a: [1, 2]}', "{a: {2: 'x'}}"]):
+        b1, b2 = build(ay, kf3), build(ay, kf3 + [kf3[-1]])
+        import yaml as _yy
+        perm = [kf3[0], _yy.safe_dump({'a': dict(reversed(list(_yy.safe_load(kf3[1])['a'].items())))}, default_flow_style=True).strip()]
+        b3 = build(ay, perm)
+        R.cases += 1
+        if b1 != b2 or (b1[0] != b3[0]) or (b1[0] == 'ok' and not unordered_eq(b1[1], b3[1])):
+            R.fail('bounded:C15.repeating-the-last-document-changes-nothing', f'docs={kf3}: built {b1!r}; last document repeated {b2!r}; keys of the last document reversed {b3!r}'[:600], {'family': 'c15', 'docs': kf3})
     for _ in range(n_cases(tier, 300, 5000)):
         docs = gen_sequence(rng, no_prio_in_seq=True)
         texts = [G.render(d) for d in docs]
